@@ -136,6 +136,7 @@ func (m *LinMon[T]) Check() {
 		if !eqSlices(vs, m.Model) {
 			c.Fail("values", "", "%s.Values() = %s, want removal order %s", m.Name, short(vs), short(m.Model))
 		}
+		ruin(vs)
 		c.Count("obs:Values", 1)
 		if m.Cap > 0 {
 			c.State(core.Mix(uint64(m.Cap), uint64(m.takes%m.Cap), uint64(m.n())))
